@@ -5,8 +5,8 @@ expect: a rule id that must fire, or 'silent' for a behaviour-preserving edit.""
 VARIANTS = []
 
 
-def V(id, prop, expect, *edits):
-    VARIANTS.append({'id': id, 'prop': prop, 'expect': expect, 'edits': list(edits)})
+def V(id, prop, expect, *edits, witness=False):
+    VARIANTS.append({'id': id, 'prop': prop, 'expect': expect, 'edits': list(edits), 'witness': witness})
 
 
 E = 'src/entry.rs'
@@ -1037,3 +1037,44 @@ V('c17-mutate-outside-once', 'C17', 'C17.R1', (CE, '''    #[inline]
 
     #[inline]
     unsafe fn get_unchecked(&self) -> &T {'''))
+
+
+# ---- witness-decided variants (run with the compile_fail witnesses enabled)
+V('w10b-check-const-not-evaluated', 'C10', 'C10.W', (E, """        let _ = T::_CHECK_NOT_HOT_RELOADED;
+        self.inner.get()""", """        self.inner.get()"""), witness=True)
+V('w1a-remove-by-shared-ref', 'C01', 'C01.W', (C, """    pub fn remove<T: Storable>(&mut self, id: &str) -> bool {
+        let removed = self.assets.remove(id, TypeId::of::<T>());""", """    pub fn remove<T: Storable>(&self, id: &str) -> bool {
+        let removed = self.assets.remove_shared(id, TypeId::of::<T>());"""), (C, """    fn clear(&mut self) {
+        for shard in &mut *self.shards {""", """    fn remove_shared(&self, id: &str, type_id: TypeId) -> bool {
+        let key = BorrowedKey::new_with(id, type_id);
+        self.get_shard(key).0.write().remove(&key as &dyn Key).is_some()
+    }
+
+    fn clear(&mut self) {
+        for shard in &mut *self.shards {"""), witness=True)
+V('w16-index-mut', 'C16', 'C16.W', (BY, """impl Clone for SharedBytes {""", """impl std::ops::IndexMut<usize> for SharedBytes {
+    fn index_mut(&mut self, i: usize) -> &mut u8 {
+        let inner = self.inner();
+        unsafe { &mut std::slice::from_raw_parts_mut(inner.ptr as *mut u8, inner.len)[i] }
+    }
+}
+
+impl std::ops::Index<usize> for SharedBytes {
+    type Output = u8;
+    fn index(&self, i: usize) -> &u8 {
+        &(**self)[i]
+    }
+}
+
+impl Clone for SharedBytes {"""), witness=True)
+V('w7a-static-not-required', 'C07', 'C07.W', (C, """    pub fn enhance_hot_reloading(&'static self) {
+        if let Some(reloader) = &self.reloader {
+            reloader.send_static(&self.assets);
+        }
+    }""", """    pub fn enhance_hot_reloading(&self) {
+        if let Some(reloader) = &self.reloader {
+            let reloader: &'static HotReloader = unsafe { &*(reloader as *const HotReloader) };
+            let assets: &'static AssetMap = unsafe { &*(&self.assets as *const AssetMap) };
+            reloader.send_static(assets);
+        }
+    }"""), witness=True)
